@@ -13,8 +13,10 @@ PROP = dict(
         "strconv.FormatFloat(n,'G',-1,64) on integers (decimal digits without trailing zeros, exponent form from 1E+06) and "
         "strconv.ParseFloat on the printed NUM text, strconv.Quote (%q) with unicode.IsPrint left opaque, regexp for the three "
         "small patterns (identRE, renderableBytesRE, STR)",
-        "the order in which set members / dict entries / tuple names are printed (Less, sort) is not modelled: the meaning of a "
-        "literal does not depend on it; exact printed text is predicted (op `repr`) only for shapes with at most one member",
+        "the order in which set members / dict entries / relation rows are printed (Less, sort) is not modelled: the meaning of a "
+        "literal does not depend on it; exact printed text is predicted (op `repr`) only for shapes with at most one member "
+        "(tuple and relation names: sorted as Go strings). Accordingly op `reprrt` accepts a re-printed text that is a permutation "
+        "of the first one (member order is C06's subject); a different representation or escape still changes the characters",
     ],
     assumptions=[
         "numbers: integers |n| < 2^53 whose printed form is under 15 characters (formatFloat64's guard; beyond it the one-ulp "
